@@ -466,7 +466,7 @@ class VM:
         elif op == OpCode.SUB:
             b = self.stack.pop()
             a = self.stack.pop()
-            self.stack.append(norm_number(to_number(a) - to_number(b)))
+            self.stack.append(norm_number(self._to_number(a) - self._to_number(b)))
 
         elif op == OpCode.MUL:
             b = self.stack.pop()
@@ -478,8 +478,8 @@ class VM:
         elif op == OpCode.DIV:
             b = self.stack.pop()
             a = self.stack.pop()
-            b_num = to_number(b)
-            a_num = to_number(a)
+            b_num = self._to_number(b)
+            a_num = self._to_number(a)
             if b_num == 0:
                 # Check sign of zero using copysign
                 b_sign = math.copysign(1, b_num)
@@ -495,18 +495,18 @@ class VM:
         elif op == OpCode.MOD:
             b = self.stack.pop()
             a = self.stack.pop()
-            b_num = to_number(b)
-            a_num = to_number(a)
+            b_num = self._to_number(b)
+            a_num = self._to_number(a)
             self.stack.append(js_remainder(a_num, b_num))
 
         elif op == OpCode.POW:
             b = self.stack.pop()
             a = self.stack.pop()
-            self.stack.append(js_pow(to_number(a), to_number(b)))
+            self.stack.append(js_pow(self._to_number(a), self._to_number(b)))
 
         elif op == OpCode.NEG:
             a = self.stack.pop()
-            n = to_number(a)
+            n = self._to_number(a)
             # Ensure -0 produces -0.0 (float)
             if n == 0:
                 self.stack.append(-0.0 if math.copysign(1, n) > 0 else 0.0)
@@ -515,7 +515,7 @@ class VM:
 
         elif op == OpCode.POS:
             a = self.stack.pop()
-            self.stack.append(to_number(a))
+            self.stack.append(self._to_number(a))
 
         # Bitwise
         elif op == OpCode.BAND:
@@ -804,11 +804,11 @@ class VM:
         # Increment/Decrement
         elif op == OpCode.INC:
             a = self.stack.pop()
-            self.stack.append(norm_number(to_number(a) + 1))
+            self.stack.append(norm_number(self._to_number(a) + 1))
 
         elif op == OpCode.DEC:
             a = self.stack.pop()
-            self.stack.append(norm_number(to_number(a) - 1))
+            self.stack.append(norm_number(self._to_number(a) - 1))
 
         # Closures
         elif op == OpCode.MAKE_CLOSURE:
@@ -926,7 +926,7 @@ class VM:
 
     def _to_int32(self, value: JSValue) -> int:
         """Convert to 32-bit signed integer."""
-        n = to_number(value)
+        n = self._to_number(value)
         if math.isnan(n) or math.isinf(n) or n == 0:
             return 0
         n = int(n)
@@ -937,7 +937,7 @@ class VM:
 
     def _to_uint32(self, value: JSValue) -> int:
         """Convert to 32-bit unsigned integer."""
-        n = to_number(value)
+        n = self._to_number(value)
         if math.isnan(n) or math.isinf(n) or n == 0:
             return 0
         n = int(n)
@@ -945,6 +945,12 @@ class VM:
 
     def _compare(self, a: JSValue, b: JSValue) -> Optional[int]:
         """Compare two values. Returns -1, 0, or 1, or None if unordered (NaN)."""
+        # Objects are converted to primitives first (valueOf, then toString)
+        if isinstance(a, JSObject):
+            a = self._to_primitive(a, "number")
+        if isinstance(b, JSObject):
+            b = self._to_primitive(b, "number")
+
         # Both strings: compare as strings
         if isinstance(a, str) and isinstance(b, str):
             if a < b:
